@@ -182,4 +182,4 @@ def queries():
 _c14_queries = queries
 def queries():
     import C12
-    return _c14_queries() + [q for q in C12.queries() if q.tier == "quick" and q.name.startswith("modes-aes_ct") and "ctrcbc" in q.name]
+    return _c14_queries() + [q for q in C12.queries() if q.tier == "quick" and q.name.startswith("modes-aes_ct") and ("ctrcbc" in q.name or "-ctr-" in q.name)]   # -ctr-: the CTR class under GCM (seeded change C14e)
